@@ -12,7 +12,8 @@ META = {
     "elements, aligned ranges and misaligned ranges (must fail); strings of length 0, 1, cap-1, cap, cap+1, cap+40; structure "
     "dicts; raw bytes; each request once through the single-request path and once through the multi-service path (second small "
     "request added); several bits of one word and duplicates in one call; chains write->write->read over a reduced alphabet. "
-    "Oracle: byte-for-byte diff of ALL controller memory against the reference encoding applied to the prior image (care mask "
+    "Refused write services (shared with C03): every n-th write service of single/3/6-request calls refused with 3 statuses - success may only be "
+    "reported for data that is in memory. Oracle: byte-for-byte diff of ALL controller memory against the reference encoding applied to the prior image (care mask "
     "only inside written strings/structures), service log shows each write applied exactly once (fragments tile the value), "
     "returned Tag truthy with the value/type/name, read-back equals the reference reading of the expected image. "
     "Non-trivial = every executed write call; distinct = distinct (world, image, request, value, path).",
